@@ -33,7 +33,13 @@ def options_table():
         conv.ConversionOptions(recursive=True, user_requested=True, optional_features=F.EQUALITY_OPERATORS),
         conv.ConversionOptions(recursive=True, user_requested=True, optional_features=(F.EQUALITY_OPERATORS, F.LISTS)),
         conv.ConversionOptions(recursive=True, user_requested=False, optional_features=None),
+        conv.ConversionOptions(recursive=True, user_requested=True, internal_convert_user_code=False, optional_features=None),
     ]
+
+
+# pairs of option values (indices) that differ in exactly one field: recursive / user_requested /
+# internal_convert_user_code / optional_features.  Every job works on one such pair plus one more value.
+ONE_FIELD_PAIRS = [(0, 1), (0, 4), (0, 5), (2, 3)]
 
 
 # ---------------------------------------------------------------------------------------------
@@ -52,11 +58,7 @@ class ScopeSpy:
         def spy(this, function_name, scope_name, options):
             rec = getattr(tls, 'rec', None)
             if rec is not None:
-                try:
-                    r, u, i, fs = options.as_tuple()
-                    rec.append((function_name, bool(r), bool(u), bool(i), tuple(sorted(str(f) for f in fs))))
-                except Exception:  # noqa: BLE001
-                    rec.append((function_name, repr(options)))
+                rec.append((function_name, poolmod.Registry.opt_key(options) or repr(options)))
             return orig(this, function_name, scope_name, options)
 
         self.cls.__init__ = spy
@@ -159,6 +161,9 @@ def plan_jobs(seed, tier):
     # scripted sequential histories (one thread): both orders of the two loopers, every option value twice
     for first, second in (('ld', 'lu'), ('lu', 'ld')):
         items = [('req', s, oi, 'transform', None, 0) for oi in (0, 2) for s in (first, second, first)]
+        jobs.append(dict(id=len(jobs) + 1, seed=rnd.randrange(1 << 30), nthreads=1, script={'1': [items], '2': [[]]}))
+    for a, b in ONE_FIELD_PAIRS:
+        items = [('req', s, oi, 'transform', None, 0) for s in ('pA', 'q1') for oi in (a, b, a)]
         jobs.append(dict(id=len(jobs) + 1, seed=rnd.randrange(1 << 30), nthreads=1, script={'1': [items], '2': [[]]}))
     return jobs
 
@@ -498,9 +503,8 @@ def run_job(job):
     try:
         probe.register_thread(checker_tid)
         job_slots = rnd.sample(SLOTS, 5)
-        job_ois = rnd.sample(range(len(opts)), 3)
-        if 0 not in job_ois and rnd.random() < 0.5:
-            job_ois[0] = 0
+        job_ois = list(rnd.choice(ONE_FIELD_PAIRS))
+        job_ois.append(rnd.choice([i for i in range(len(opts)) if i not in job_ois]))
         switch = rnd.choice((1e-6, 1e-6, 1e-5, 1e-4, 5e-3))
         for phase in (1, 2):
             per_thread = _make_items(rnd, nthreads, job_slots, job_ois,
